@@ -152,6 +152,45 @@ class Session:
 U32 = 0xFFFFFFFF
 
 
+# trust-provisioning style methods: (command tag, operation word(s) in front of the arguments, number of arguments, what the
+# call returns).  Operation codes are the protocol's, written out here (not read from SPSDK's enumerations).
+TP_METHODS = {
+    "tp_hsm_gen_key": (0x16, 3, 6, "list"),
+    "tp_oem_gen_master_share": (0x16, 0, 8, "list"),
+    "tp_oem_set_master_share": (0x16, 1, 4, "bool"),
+    "tp_oem_get_cust_cert_dice_puk": (0x16, 2, 4, "first"),
+    "tp_oem_get_cust_dice_response": (0x16, 7, 4, "first"),
+    "tp_hsm_store_key": (0x16, 4, 6, "list"),
+    "tp_hsm_enc_blk": (0x16, 5, 8, "bool"),
+    "tp_hsm_enc_sign": (0x16, 6, 6, "first"),
+    "wpc_get_id": (0x16, 0x5000000, 2, "first"),
+    "nxp_get_id": (0x16, 0x5000001, 2, "first"),
+    "wpc_insert_cert": (0x16, 0x5000002, 4, "zero"),
+    "wpc_sign_csr": (0x16, 0x5000003, 4, "first"),
+    "dsc_hsm_create_session": (0x16, 0x6000000, 4, "first"),
+    "dsc_hsm_enc_blk": (0x16, 0x6000001, 5, "first"),
+    "dsc_hsm_enc_sign": (0x16, 0x6000002, 4, "first"),
+    "el2go_get_version": (0x20, 1, 0, "list"),
+    "el2go_close_device": (0x20, 2, 2, "first"),
+    "tp_prove_genuinity": (0x16, None, 2, "first"),
+    "tp_set_wrapped_data": (0x16, None, 3, "bool"),
+}
+
+
+def tp_wire(meth: str, a: list):
+    """(command tag, parameter words the device must see, kind of return value) of one trust-provisioning style call."""
+    tag, opw, _n, rk = TP_METHODS[meth]
+    if meth == "tp_prove_genuinity":
+        addr, size = a
+        return tag, [0xF4 | 3 << 8 | 0x17 << 24, (addr >> 32) & U32, addr & U32, size], rk
+    if meth == "tp_set_wrapped_data":
+        addr, stage, control = a
+        if addr == 0:
+            control = 2
+        return tag, [0xF0 | 3 << 8 | 0x17 << 24, control << 8 | stage, (addr >> 32) & U32, addr & U32], rk
+    return tag, [opw] + [int(x) for x in a], rk
+
+
 def _frames(n: int, mp: int) -> int:
     return (n + mp - 1) // mp
 
@@ -360,6 +399,25 @@ class OpSpec:
             self.call = lambda: mb.update_life_cycle(o["value"])
             self.expected_hist = [("update_life_cycle", o["value"])]
             self.expect_ret = ("bool",)
+        elif n == "flash_security_disable":
+            key = gen_bytes(o["dseed"], 8)
+            self.call = lambda: mb.flash_security_disable(key)
+            # the backdoor key travels as two words, most significant byte first within each word
+            self.expected_hist = [("flash_security_disable", int.from_bytes(key[0:4], "big"), int.from_bytes(key[4:8], "big"))]
+            self.expect_ret = ("bool",)
+        elif n == "ele_message":
+            a = o["args"]
+            self.call = lambda: mb.ele_message(*a)
+            self.expected_hist = [("ele_message", (0, *a))]
+            self.expect_ret = ("bool",)
+        elif n == "tp":
+            # trust-provisioning / WPC / DSC-HSM / EL2GO commands: parameters only, answered with status + value words
+            meth, a = o["meth"], list(o["args"])
+            tag, words, rk = tp_wire(meth, a)
+            self.call = lambda: getattr(mb, meth)(*a)
+            self.expected_hist = [("tp", tag, tuple(words))]
+            vals = md.tp_values(tag, words)
+            self.expect_ret = {"list": ("value", vals), "first": ("value", vals[0]), "bool": ("bool",), "zero": ("value", 0)}[rk]
         elif n == "property_list":
             # the decoded listing of the device's properties: a function of what the device answers, whatever was
             # decoded before in this process
@@ -864,6 +922,7 @@ def gen_op(rng: random.Random, mp: int, transport: str, cap: int) -> dict:
         + ["generate_key_blob", "load_image", "load_image", "fuse_program", "fuse_read", "update_life_cycle", "execute", "call", "configure_memory", "reliable_update"]
         + ["flash_erase_all", "flash_erase_all_unsecure", "reset"]
         + ["property_list", "decode_property"]
+        + ["tp", "tp", "tp", "ele_message", "flash_security_disable"]
     )
     base = rng.choice([RAM, RAM, FLASH, 0x6000_0000])
     off = rng.choice([0, 0, 4, 0x100, 0x1000, rng.randrange(0, 0x8000), 0xFFFF0])
@@ -925,6 +984,25 @@ def gen_op(rng: random.Random, mp: int, transport: str, cap: int) -> dict:
         o.update(len=rng.choice([16, 24, 32]), dseed=rng.randrange(1 << 30), key_sel=rng.choice([0, 2, 3]), count=rng.choice([72, 88, 48, mp, mp + 8]))
     elif name == "update_life_cycle":
         o.update(value=rng.randrange(256))
+    elif name == "flash_security_disable":
+        o.update(dseed=rng.randrange(1 << 30))
+    elif name == "ele_message":
+        o.update(args=[RAM + rng.randrange(0, 0x1000, 4), rng.choice([1, 2, 6, 0xFFFF]), rng.choice([0, RAM + 0x2000]), rng.choice([0, 1, 4])])
+    elif name == "tp":
+        meth = rng.choice(sorted(TP_METHODS))
+        nargs = TP_METHODS[meth][2]
+
+        def word(i):
+            return rng.choice([0, 1, U32, 0x8000_0000, RAM + rng.randrange(0, 0x8000, 4), rng.choice([16, 32, 48, 64, 96, 0x100]), rng.randrange(1 << 32)]) if i % 2 == 0 else rng.choice([0, 16, 32, 48, 64, 0x100, 0xFFFF, rng.randrange(1 << 16)])
+
+        args = [word(i) for i in range(nargs)]
+        if meth == "tp_prove_genuinity":
+            args = [rng.choice([0, RAM + 0x100, 0x1_2000_0000, (1 << 48) - 4, rng.randrange(1 << 40)]), rng.choice([0, 0x100, 0xFFFF, rng.randrange(1 << 16)])]
+        elif meth == "tp_set_wrapped_data":
+            args = [rng.choice([0, 0, RAM + 0x100, 0x1_2000_0000, rng.randrange(1 << 40)]), rng.choice([0x4B, 0x4B, 0, 0xFF, rng.randrange(256)]), rng.choice([1, 1, 2, 3, 0])]
+        elif meth == "el2go_close_device":
+            args = [rng.choice([0, RAM, U32, rng.randrange(1 << 32)]), rng.choice([0, 1])]
+        o.update(meth=meth, args=args)
     elif name == "reset":
         o.update(timeout=rng.choice([10, 100, 2000]))
     return o
@@ -988,6 +1066,7 @@ def gen_plan(family: str, i: int, rng: random.Random, tier: str) -> dict:
         "not_ready": rng.choice([0, 0, 0, 1, 3]) if transport == "uart" else 0,
         "slow_us": rng.choice([0, 0, 0, int(timeout_ms * 1000 * 0.7)]),
         "cmd_exception": rng.random() < 0.25,
+        "tp_refuse_generic": rng.random() < 0.4,
     }
     if knobs["slow_us"] and knobs["byte_us"] * 1100 > timeout_ms * 300:
         knobs["slow_us"] = 0
@@ -1007,6 +1086,25 @@ def gen_plan(family: str, i: int, rng: random.Random, tier: str) -> dict:
         plan["ops"] = [first] + [gen_op(rng, mp, transport, cap) for _ in range(rng.randint(1, 3))]
         plan["knobs"]["cmd_exception"] = rng.random() < 0.15
         plan["faults"] = [{"op": 0, "kind": "dev_err", "cmd": 0, "when": rng.choice(["initial", "initial", "final"]), "status": rng.choice(STATUSES)}]
+        return plan
+    if family == "tprov":
+        # trust-provisioning / WPC / DSC-HSM / EL2GO / ELE calls, one of them refused by the device (in its own response
+        # format or in the generic one) or cut short on the link
+        plan["ops"] = []
+        for _ in range(rng.randint(1, 5)):
+            o = gen_op(rng, mp, transport, cap)
+            while o["op"] not in ("tp", "ele_message", "flash_security_disable"):
+                o = gen_op(rng, mp, transport, cap)
+            plan["ops"].append(o)
+        r = rng.random()
+        k = rng.randrange(len(plan["ops"]))
+        if r < 0.5:
+            plan["faults"] = [{"op": k, "kind": "dev_err", "cmd": 0, "when": rng.choice(["initial", "final"]), "status": rng.choice(STATUSES)}]
+            if rng.random() < 0.5:
+                plan["ops"] = plan["ops"][k:]  # a fresh object: the refused call is the first one
+                plan["faults"][0]["op"] = 0
+        elif r < 0.8:
+            plan["faults"] = [gen_fault(rng, len(plan["ops"]), transport, plan["ops"], mp, extra_ok=False)]
         return plan
     if family == "lastpkt":
         # the device refuses exactly the last data packet of a data phase (abort, NAK or abort frame for its ACK): the
@@ -1078,8 +1176,8 @@ def warm_up() -> None:
 
 def families(tier: str):
     if tier == "quick":
-        return [("control", 1500), ("faulty", 4000), ("extra", 300), ("sweep", 80), ("lastpkt", 300), ("refused", 300), ("props", 200), ("sdp_control", 600), ("sdp_faulty", 1200), ("sdps", 150)]
-    return [("control", 40000), ("faulty", 110000), ("extra", 8000), ("sweep", 1500), ("lastpkt", 8000), ("refused", 8000), ("props", 5000), ("sdp_control", 15000), ("sdp_faulty", 40000), ("sdps", 2000)]
+        return [("control", 1500), ("faulty", 4000), ("extra", 300), ("sweep", 80), ("lastpkt", 300), ("refused", 300), ("tprov", 300), ("props", 200), ("sdp_control", 600), ("sdp_faulty", 1200), ("sdps", 150)]
+    return [("control", 40000), ("faulty", 110000), ("extra", 8000), ("sweep", 1500), ("lastpkt", 8000), ("refused", 8000), ("tprov", 8000), ("props", 5000), ("sdp_control", 15000), ("sdp_faulty", 40000), ("sdps", 2000)]
 
 
 def reductions(plan: dict):
